@@ -42,7 +42,7 @@ type State struct {
 	epoch  string
 	ghosts map[string]Val
 	ac     string // allocation counter
-	defers []*ssa.Defer
+	defers []deferEntry
 	held   map[string]string // lock ghost: key -> Bool term
 }
 
@@ -64,8 +64,14 @@ func (s *State) clone() *State {
 	for k, v := range s.held {
 		n.held[k] = v
 	}
-	n.defers = append([]*ssa.Defer(nil), s.defers...)
+	n.defers = append([]deferEntry(nil), s.defers...)
 	return n
+}
+
+// deferEntry: a deferred call and the condition under which it was registered on this path.
+type deferEntry struct {
+	d     *ssa.Defer
+	guard string
 }
 
 type edge struct {
@@ -855,18 +861,44 @@ func (g *Gen) join(b *ssa.BasicBlock, ins []edge) *State {
 		}
 		res.held[k] = g.mergeTerms("held", "Bool", terms, conds)
 	}
-	// defers must agree
-	for _, e := range ins[1:] {
-		if b == nil {
-			break
-		}
-		if len(e.st.defers) != len(ins[0].st.defers) {
-			g.unsupported("conditional defer")
-		}
-		for i := range e.st.defers {
-			if e.st.defers[i] != ins[0].st.defers[i] {
-				g.unsupported("conditional defer")
+	// deferred calls: union of the predecessors' lists; an entry is live iff the path that registered it was taken
+	{
+		same := true
+		for _, e := range ins[1:] {
+			if len(e.st.defers) != len(ins[0].st.defers) {
+				same = false
+				break
 			}
+			for i := range e.st.defers {
+				if e.st.defers[i] != ins[0].st.defers[i] {
+					same = false
+				}
+			}
+		}
+		if !same && b != nil {
+			var order []*ssa.Defer
+			seen := map[*ssa.Defer]bool{}
+			for _, e := range ins {
+				for _, de := range e.st.defers {
+					if !seen[de.d] {
+						seen[de.d] = true
+						order = append(order, de.d)
+					}
+				}
+			}
+			var merged []deferEntry
+			for _, d := range order {
+				var alts []string
+				for i, e := range ins {
+					for _, de := range e.st.defers {
+						if de.d == d {
+							alts = append(alts, and(conds[i], de.guard))
+						}
+					}
+				}
+				merged = append(merged, deferEntry{d, g.defBool("dg", or(alts...))})
+			}
+			res.defers = merged
 		}
 	}
 	if b != nil {
